@@ -12,6 +12,7 @@ import ProfiVerif.Lemmas.TimedRing2Step
 import ProfiVerif.Lemmas.TimedRingCrash
 import ProfiVerif.Lemmas.TimedRingAgree
 import ProfiVerif.Lemmas.ColdStart
+import ProfiVerif.Lemmas.ColdStartSolo
 
 namespace PV.C06
 open PV
@@ -822,5 +823,75 @@ example : FirstClaimRun 0 3 4800 4900 netL evsL :=
       · cases hst; decide
       · simp [netL, h2] at hst)
     (schedN_of_times _ _ _ _ (schedNT_of_b 100 2 evsL [0, 50] 50 (by decide)))
+
+/-! ## Ring level (timed): cold start of a station that is alone — the one-station ring forms -/
+
+/-- The formation budget in the configuration constants: two synchronisation pauses after the first claim token,
+the second token, one sweep step (`P + bits 66 + Tslot`) per address of the GAP (`HSA − 1` addresses), and three
+more polls (end of the sweep, `PassToken`, the token to itself). -/
+theorem formTime_value (cfg : Cfg) (hsa : Nat) :
+    cfg.formTime hsa = 2 * cfg.b33 + (cfg.P + 2 * cfg.b33 + (hsa - 1) * (cfg.P + cfg.b66 + cfg.slot) + 3 * cfg.P) := rfl
+
+/-- One poll of the lone claimant in any stage of the formation (`form_step`). -/
+theorem one_station_ring_step (cfg : Cfg) (hok : cfg.Ok) (n : Net) (x : Nat) (st : NetStation) (l : Int)
+    (h : Solo cfg n x st l) (stage : SStage) (hs : stage.ok st.s)
+    (hv : RingView [st.s.p.address] st.s.p.address st.s.ring) (B : Int) (now : Int)
+    (hown : n.bus.seen.getD x 0 < now) (hP : now ≤ n.bus.seen.getD x 0 + (cfg.P : Nat))
+    (hB : max (n.bus.seen.getD x 0) (l + ((stage.wait cfg : Nat) : Int)) +
+      ((stage.rest cfg st.s.p.address st.s.p.hsa : Nat) : Int) ≤ B) :
+    ∃ n' c, n.poll x now = (n', [], some (.ok c)) ∧ n'.bus.seen.getD x 0 = now ∧
+      now ≤ max (n.bus.seen.getD x 0) (l + ((stage.wait cfg : Nat) : Int)) + (cfg.P : Nat) ∧
+      FormOut cfg x st.s.p.address B st n' c now :=
+  form_step h hok stage hs hv B now hown hP hB
+
+/-- **Cold start of a station that is alone on the bus: the one-station ring forms** (C02 "the ring forms" for
+one station; phases (a1)–(a4) of the cold start without a second station).  A station model on the byte-accurate
+bus of `Model/Net.lean`, online in `ListenToken` with stamp `l`, empty buffer, every logged transmission its own
+and over (`Solo`; e.g. nothing transmitted yet), knowing only itself (`RingView [TS]` once its LAS is declared
+valid), polled at increasing times with gaps at most `P` (`2 + 2P + bits 33 + ⌈11 bit⌉ ≤ Tslot`,
+`bits 33 < Tto`), nothing else on the bus.  Then (`LoneRun`, `FormRun`): every poll returns regularly and
+receives nothing; nothing is transmitted before `T = l + Tto`; the first poll at or after `T`, no later than
+`max(last poll, T) + P`, transmits the first claim token; then the second claim token, one status request to
+every other address below HSA — in the order of the GAP sweep, each after the slot time of the previous one has
+run out —, and finally the token to the station itself: at that poll, no later than `formTime` after the first
+claim (`formTime_value`), the station is in `UseToken` and its ring view is that of the one-member ring (LAS =
+{TS}, NS = PS = TS).  Until then it is in `ClaimToken` / `PassToken` and transmits nothing else; all later polls
+return regularly. -/
+theorem one_station_ring_forms (cfg : Cfg) (hok : cfg.Ok) (x : Nat) (st : NetStation) (l : Int) (coll : Nat) (S : Int)
+    (evs : List Int) (n : Net) (h : Solo cfg n x st l) (hst : st.s.st = .listenToken none coll)
+    (hsync : cfg.b33 < st.s.p.tokenLostTimeout)
+    (hv : RingView [st.s.p.address] st.s.p.address st.s.ring.claimToken)
+    (hS : n.bus.seen.getD x 0 ≤ S) (hT : l + (st.s.p.tokenLostTimeout : Nat) ≤ S)
+    (hs : SchedXT cfg.P (n.bus.seen.getD x 0) evs) :
+    LoneRun x st.s.p.address (l + (st.s.p.tokenLostTimeout : Nat)) (S + (cfg.P : Nat)) (cfg.formTime st.s.p.hsa) n evs :=
+  lone_cold_start hok x st l coll S evs n h hst hsync hv hS hT hs
+
+/-! Non-vacuity: station 3 alone (parameters of the C13 example: HSA 10, `Tslot` = 400 µs, `Tto` = 4800 µs), listening
+since 0, polled every 90 µs: first claim at 4860 µs, the ring of one stands no later than 4860 + 6352 µs. -/
+open PV.C13 in
+def netOne : Net := { bus := { rate := 500000, txs := [], seen := [0] }, stations := [{ s := sL3, apps := [], online := true }] }
+
+open PV.C13 in
+theorem soloOne : Solo cfgR netOne 0 { s := sL3, apps := [], online := true } 0 := by
+  have hinv3 : Inv sL3 [] := by
+    have h := inv_new pR3 [] (by decide) (by decide) (by intro s hs; cases hs)
+    exact ⟨h.addr, h.hsa, h.ring, fun ho => by simp [sL3] at ho, h.gap, fun a ha => by simp [sL3] at ha,
+      fun a ha => by simp [sL3] at ha, h.app, fun a d ha => by simp [sL3] at ha, h.scripts, by simp [sL3]⟩
+  exact ⟨rfl, rfl, (fun o ho => by cases ho), (fun o ho => by cases ho), by decide, by decide, rfl, rfl, rfl, hinv3, rfl, rfl, rfl,
+    rfl, rfl⟩
+
+theorem viewOne : RingView [3] 3 (TokenRing.new 3).claimToken := by
+  refine ⟨⟨by simp, trivial, by decide⟩, by simp, rfl, rfl, ?_, TokenRing.new_nbr 3⟩
+  intro a ha
+  unfold TokenRing.claimToken TokenRing.new TokenRing.isActive
+  simp [ha]
+
+open PV.C13 in
+example : LoneRun 0 3 4800 4900 (cfgR.formTime 10) netOne (apList 90 0 140) :=
+  one_station_ring_forms cfgR cfgR_ok 0 { s := sL3, apps := [], online := true } 0 0 4800 (apList 90 0 140) netOne soloOne rfl
+    (by decide) viewOne (by decide) (by decide) (schedXT_ap 100 90 (by decide) (by decide) 140 0)
+
+open PV.C13 in
+example : cfgR.formTime 10 = 6352 := by decide
 
 end PV.C06
